@@ -72,6 +72,26 @@ fn pool() -> Vec<Val> {
         Val::Obj(vec![("a".into(), Val::Null)]),
         Val::Obj(vec![("é".into(), s("/"))]),
         Val::Obj(vec![("a".into(), Val::Obj(vec![("a".into(), Val::Dec(25, 1))]))]),
+        // values that differ only in where a bracket sits: equal when flattened naively
+        // (a hash or a key that concatenates members without length or terminator)
+        Val::Obj(vec![("x".into(), Val::Obj(vec![("a".into(), Val::Int(1))])), ("b".into(), Val::Int(2))]),
+        Val::Obj(vec![("x".into(), Val::Obj(vec![("a".into(), Val::Int(1)), ("b".into(), Val::Int(2))]))]),
+        Val::Obj(vec![("x".into(), Val::Obj(vec![])), ("b".into(), Val::Int(2))]),
+        Val::Obj(vec![("x".into(), Val::Obj(vec![("b".into(), Val::Int(2))]))]),
+        Val::Arr(vec![Val::Arr(vec![Val::Int(1)]), Val::Int(2)]),
+        Val::Arr(vec![Val::Arr(vec![Val::Int(1), Val::Int(2)])]),
+        Val::Arr(vec![Val::Arr(vec![]), Val::Int(1)]),
+        Val::Arr(vec![s("ab"), s("c")]),
+        Val::Arr(vec![s("a"), s("bc")]),
+        Val::Arr(vec![s("abc")]),
+        Val::Arr(vec![Val::Int(1), Val::Int(23)]),
+        Val::Arr(vec![Val::Int(12), Val::Int(3)]),
+        Val::Arr(vec![Val::Int(123)]),
+        // neighbouring doubles: distinct values that an approximate comparison would merge
+        Val::Dec(3, 1),
+        Val::Dec(30_000_000_000_000_004, 17),
+        Val::Dec(7, 1),
+        Val::Dec(7_000_000_000_000_001, 16),
     ]
 }
 
@@ -110,7 +130,7 @@ impl Property for C10 {
         "exploration"
     }
     fn rule(&self) -> &'static str {
-        "A scenario = a base list of records that are pairwise distinct by construction on the compared part (whole records carrying a unique id, or --select .g [--select .h] with the selected members drawn from a pool of 57 pairwise distinct abstract values or absent) and an at-least-once transport applied by the harness: every record may be redelivered later any number of times, each time in a fresh spelling that denotes the same value (whitespace, escape spelling, numerically identical number spellings for |n| < 2^53 or non-integral decimals; no -0, member order never permuted), while unselected fields may change; several hasher seeds per scenario through hook H1. Oracle: stdout(--unique, faulted stream) = stdout(no --unique, the sub-stream of first deliveries with the same spellings) (exactly-once); the pairs [x, y] built from two deliveries go through --select (= #0 #1): true exactly for harness-known redeliveries (eq-agrees); identical stdout under every hasher seed (seed-free). evaluations = jawk executions; non-trivial = at least one redelivery was injected; distinct = distinct abstract traces."
+        "A scenario = a base list of records that are pairwise distinct by construction on the compared part (whole records carrying a unique id, or --select .g [--select .h] with the selected members drawn from a pool of 74 pairwise distinct abstract values (incl. values that differ only in where a bracket sits, and neighbouring doubles) or absent) and an at-least-once transport applied by the harness: every record may be redelivered later any number of times, each time in a fresh spelling that denotes the same value (whitespace, escape spelling, numerically identical number spellings for |n| < 2^53 or non-integral decimals; no -0, member order never permuted), while unselected fields may change; several hasher seeds per scenario through hook H1. Oracle: stdout(--unique, faulted stream) = stdout(no --unique, the sub-stream of first deliveries with the same spellings) (exactly-once); the pairs [x, y] built from two deliveries go through --select (= #0 #1): true exactly for harness-known redeliveries (eq-agrees); identical stdout under every hasher seed (seed-free). evaluations = jawk executions; non-trivial = at least one redelivery was injected; distinct = distinct abstract traces."
     }
     fn assumptions(&self) -> Vec<String> {
         vec![
@@ -206,6 +226,12 @@ impl Property for C10 {
         } else if rng.chance(1, 4) {
             case.opts.push(vec![format!("--style={}", rng.pick(&["consise", "pretty"]))]);
         }
+        if !mode_whole && !filtered && rng.chance(1, 6) {
+            // a selected input-context value makes every row different from every other:
+            // redelivered values are then no duplicates at all and nothing may be removed
+            case.opts.insert(0, vec!["--select".into(), format!("{}=pos", rng.pick(&["&index", "&index-in-file"]))]);
+            case.set("ctx", 1);
+        }
         // stages downstream of --unique see exactly the first occurrences
         if rng.chance(1, 5) {
             case.opts.push(vec![format!("--skip={}", rng.below(3))]);
@@ -242,6 +268,12 @@ impl Property for C10 {
                 seen.push(id);
             }
             firsts.extend_from_slice(&p.bytes.0);
+        }
+        let ctx_rows = case.param("ctx") == 1 && case.opts.iter().flatten().any(|t| t.starts_with('&'));
+        if ctx_rows {
+            // rows differ by their position: the reference is the whole stream
+            firsts = stream.clone();
+            ctx.stats.probe("rows made distinct by an input-context selection");
         }
         ctx.stats.fault("record.redelivered", redeliveries);
         if redeliveries > 0 {
@@ -298,7 +330,7 @@ impl Property for C10 {
         }
         // eq-agrees: `=` on pairs of deliveries must say "equal" exactly for redeliveries
         let recs: Vec<&Piece> = case.pieces.iter().filter(|p| p.kind == Kind::Rec).collect();
-        if recs.len() >= 2 {
+        if recs.len() >= 2 && !ctx_rows {
             let mut rng = Rng::new(case.param("pairs_seed") as u64);
             let mut pairs: Vec<(usize, usize)> = Vec::new();
             // all (redelivery, first) pairs plus a sample of others
@@ -326,6 +358,34 @@ impl Property for C10 {
                 input.extend_from_slice(&recs[*b].bytes.0);
                 input.extend_from_slice(b"]\n");
             }
+            // synthetic pairs straight from the pool: two different entries are never equal,
+            // two spellings of one entry always are; close neighbours are tried every time
+            let pl = pool();
+            let mut synth: Vec<(usize, usize)> = Vec::new();
+            for _ in 0..3 {
+                synth.push((rng.below(pl.len()), rng.below(pl.len())));
+            }
+            for w in pl.len() - 17..pl.len() - 1 {
+                if rng.chance(1, 3) {
+                    synth.push((w, w + 1));
+                }
+            }
+            let mut synth_want: Vec<bool> = Vec::new();
+            for (a, b) in &synth {
+                let wrap = |v: &Val, rng: &mut Rng| -> Vec<u8> {
+                    if selected_mode(case) {
+                        spell(&Val::Obj(vec![("g".into(), v.clone())]), rng, 2)
+                    } else {
+                        spell(v, rng, 2)
+                    }
+                };
+                input.push(b'[');
+                input.extend_from_slice(&wrap(&pl[*a], &mut rng));
+                input.push(b',');
+                input.extend_from_slice(&wrap(&pl[*b], &mut rng));
+                input.extend_from_slice(b"]\n");
+                synth_want.push(a == b);
+            }
             let expr = if selected {
                 // rows are compared on (g, h): absent on both sides counts as equal
                 let two = has_opt_value(&case.opts, ".h=h");
@@ -350,8 +410,23 @@ impl Property for C10 {
             }
             let text = String::from_utf8_lossy(&r.obs.stdout).to_string();
             let rows: Vec<&str> = text.lines().collect();
-            if rows.len() != pairs.len() {
-                return viol("C10.eq-agrees", format!("{} rows for {} pairs: {}", rows.len(), pairs.len(), show(&r.obs.stdout)));
+            if rows.len() != pairs.len() + synth.len() {
+                return viol("C10.eq-agrees", format!("{} rows for {} pairs: {}", rows.len(), pairs.len() + synth.len(), show(&r.obs.stdout)));
+            }
+            for (k, ((a, b), want)) in synth.iter().zip(synth_want.iter()).enumerate() {
+                let row = rows[pairs.len() + k];
+                let got = match row {
+                    "{\"e\":true}" => Some(true),
+                    "{\"e\":false}" => Some(false),
+                    _ => None,
+                };
+                ctx.stats.probe(if *want { "eq pair: two spellings of a pool value" } else { "eq pair: two different pool values" });
+                if got != Some(*want) {
+                    return viol(
+                        "C10.eq-agrees",
+                        format!("`=` says {row} for pool values #{a} and #{b}, which are {} the same value (pair line {})", if *want { "" } else { "not" }, pairs.len() + k),
+                    );
+                }
             }
             for (row, (a, b)) in rows.iter().zip(pairs.iter()) {
                 let want = recs[*a].id == recs[*b].id;
@@ -380,4 +455,8 @@ impl Property for C10 {
 
 fn has_opt_value(opts: &[Vec<String>], v: &str) -> bool {
     opts.iter().any(|o| o.iter().any(|t| t == v))
+}
+
+fn selected_mode(case: &Case) -> bool {
+    case.family == "selected"
 }
